@@ -144,7 +144,8 @@ def run_model_checks(v, prop, tier):
             ('dev:timeout_keeps_connection', 'MC_PoolCore_dev_timeout_keeps_connection.cfg', False),
             ('dev:error_keeps_copy_mode', 'MC_PoolCore_dev_error_keeps_copy_mode.cfg', False),
             ('dev:timeout_marks_bad_after_write', 'MC_PoolCore_dev_timeout_marks_bad_after_write.cfg', False),
-            ('dev:local_batch_keeps_server', 'MC_PoolCore_dev_local_batch_keeps_server.cfg', False)]
+            ('dev:local_batch_keeps_server', 'MC_PoolCore_dev_local_batch_keeps_server.cfg', False),
+            ('dev:reset_clears_dirty', 'MC_PoolCore_dev_reset_clears_dirty.cfg', False)]
     if tier == 'thorough':
         runs.insert(1, ('design_3c', 'MC_PoolCore_design3.cfg', True))
         runs.insert(2, ('design_session', 'MC_PoolCore_session.cfg', True))
@@ -233,7 +234,8 @@ def check(prop, tier, seed):
     ]
     core.build_pgcat()
     run_model_checks(v, prop, tier)
-    depth = 6 if tier == 'quick' else 7
+    # the same generators in both tiers (one more step multiplies the histories by ~12); thorough replays many more of them
+    depth = 6
     scenarios = []
     scenarios += generate(v, 'tx1', 'transaction', 1, depth - 1)
     # hand-off families: the probe runs after the actor has gone; longer actor programs
@@ -250,7 +252,7 @@ def check(prop, tier, seed):
     want = {
         'C01': {'handoff', 'A:local', 'A:begin', 'A:copyin', 'A:copyin2', 'A:fail', 'A:slow', 'early_return', 'exit_in_tx', 'idle_tx_timeout',
                 'vanish:slow', 'vanish:begin', 'vanish:stmt', 'vanish:big'},
-        'C02': {'handoff', 'A:set', 'A:prep', 'A:begin', 'A:fail', 'A:copyin', 'A:copyin2', 'A:slow', 'early_return', 'exit_in_tx',
+        'C02': {'handoff', 'A:set', 'A:reset1', 'A:prep', 'A:begin', 'A:fail', 'A:copyin', 'A:copyin2', 'A:slow', 'early_return', 'exit_in_tx',
                 'idle_tx_timeout', 'A:big', 'vanish:slow', 'vanish:begin', 'vanish:set', 'vanish:stmt', 'vanish:big', 'vanish:commit',
                 'reap'},
         'C04': {'checkout_timeout', 'early_return', 'exit_in_tx', 'handoff', 'idle_tx_timeout', 'leave', 'reap', 'vanish', 'A:local',
@@ -295,6 +297,7 @@ def check(prop, tier, seed):
     for i, sc in enumerate(chosen):
         sc['id'] = i + 1
         sc['seed'] = seed * 100003 + i
+        sc['mode_at'] = 'user' if i % 3 == 1 else 'pool'     # where the configuration states the pool mode
         sc.pop('_f', None)
     v.extra['scenarios_generated'] = len(scenarios)
     results = core.run_parallel(poolcore.run_scenario, chosen, workers=14)
